@@ -24,7 +24,14 @@ class VerifCustomError(exceptions.JsonRpcError):
     message = 'verif custom'
 
 
+class VerifZeroError(exceptions.JsonRpcError):
+    """a user error class registered for code 0"""
+    code = 0
+    message = 'zero'
+
+
 CLASSES = {c.__name__: c for c in (
+    VerifZeroError,
     exceptions.JsonRpcError, VerifBaseError, VerifCustomError, exceptions.ParseError,
     exceptions.InvalidRequestError, exceptions.MethodNotFoundError, exceptions.InvalidParamsError,
     exceptions.InternalError, exceptions.ServerError)}
